@@ -287,16 +287,29 @@ func (c *Ctx) rulePendingSums(rule string) {
 		info := f.Info()
 		good := false
 		ast.Inspect(f.Body, func(n ast.Node) bool {
-			rs, ok := n.(*ast.RangeStmt)
-			if !ok || selField(info, rs.X) != mgr+".items" {
-				return true
-			}
 			var item, key types.Object
-			if rs.Value != nil {
-				item = rootIdent(info, rs.Value)
-			}
-			if rs.Key != nil {
-				key = rootIdent(info, rs.Key)
+			var body *ast.BlockStmt
+			switch rs := n.(type) {
+			case *ast.RangeStmt:
+				if selField(info, rs.X) != mgr+".items" {
+					return true
+				}
+				if rs.Value != nil {
+					item = rootIdent(info, rs.Value)
+				}
+				if rs.Key != nil {
+					key = rootIdent(info, rs.Key)
+				}
+				body = rs.Body
+			case *ast.ForStmt:
+				// for i := 0; i < len(m.items); i++
+				key = indexLoopVar(f, rs, func(e ast.Expr) bool { return selField(info, e) == mgr+".items" })
+				if key == nil {
+					return true
+				}
+				body = rs.Body
+			default:
+				return true
 			}
 			isElem := func(e ast.Expr) bool {
 				e = ast.Unparen(e)
@@ -308,7 +321,7 @@ func (c *Ctx) rulePendingSums(rule string) {
 				}
 				return false
 			}
-			for _, s := range rs.Body.List {
+			for _, s := range body.List {
 				if as, ok := s.(*ast.AssignStmt); ok && as.Tok == token.ADD_ASSIGN && len(as.Rhs) == 1 {
 					if call, ok := ast.Unparen(as.Rhs[0]).(*ast.CallExpr); ok {
 						if ce := resolveCallee(info, call); ce.Fn != nil && ce.Fn.Name() == "Len" && ce.Recv != nil && isElem(ce.Recv) {
@@ -919,8 +932,24 @@ func (c *Ctx) ruleMinimumIdle(rule string) {
 	// the reaper re-reads the minimum on every tick (a value computed once per run ignores later TunePool calls)
 	if R.Reaper != nil {
 		n := 0
+		var reachesMin func(g *Func, depth int) bool
+		reachesMin = func(g *Func, depth int) bool {
+			if g == minF {
+				return true
+			}
+			if depth == 0 || g == nil || g.Body == nil {
+				return false
+			}
+			for _, cs := range c.P.calls(g) {
+				if h := c.P.byObj[cs.Callee.Key]; h != nil && h.Lib && h != g && reachesMin(h, depth-1) {
+					return true
+				}
+			}
+			return false
+		}
 		for _, cs := range c.P.calls(R.Reaper) {
-			if cs.Callee.Key == minF.Key {
+			// the minimum is read by the tick loop itself or by the pass it calls on every tick
+			if g := c.P.byObj[cs.Callee.Key]; cs.Callee.Key == minF.Key || (g != nil && g.Lib && g.Pkg.PkgPath == modPath && reachesMin(g, 2)) {
 				n++
 				c.Rep.check(c.loopDepthOf(R.Reaper, cs.Call) >= 1, rule, R.Reaper.Short(), "idle target computed outside the tick loop", c.P.pos(cs.Call), "minimum re-read on every tick", "the reaper computes the idle target outside its tick loop")
 			}
